@@ -19,6 +19,14 @@ CLAIMS = {
     ),
 }
 
+CLAIMS["C16"] = dict(
+    category="proof",
+    text="Every exported geometry accessor (between, line, rays, king/knight/pawn sets, ranks, files, edges, castle and double-move constants) and every Square/File/Rank/Color stepping helper is compared with its coordinate definition over its full domain (all squares, pairs, colours, blocker sets) on the real generated tables by Kani; unchecked table indices are proved in bounds.",
+    design_ref="DESIGN.md §6 C16",
+    note=TRUST + "full domain, no stubs, no bounds; the build-script generators are covered through their output (the tables compiled into the crate).",
+    technique="Kani/CBMC full-domain functional contracts on table accessors and step helpers + code-independent spec self-check lemmas",
+)
+
 NOT_YET = {}
 
 
